@@ -19,6 +19,7 @@ import (
 	"bytes"
 	"encoding/binary"
 	"fmt"
+	"math"
 	"strconv"
 	"strings"
 	"time"
@@ -159,6 +160,12 @@ func NewTemporal(id string, t time.Time) (*Predicate, error) {
 	}, nil
 }
 
+// The first and the last time anchors whose UnixNano value is defined.
+var (
+	minUnixNano = time.Unix(0, math.MinInt64)
+	maxUnixNano = time.Unix(0, math.MaxInt64)
+)
+
 // UUID returns a global unique identifier for the given predicate. It is
 // implemented as the SHA1 UUID of the predicate values.
 func (p *Predicate) UUID() uuid.UUID {
@@ -169,7 +176,17 @@ func (p *Predicate) UUID() uuid.UUID {
 		buffer.WriteString("immutable")
 	} else {
 		b := make([]byte, 16)
-		binary.PutVarint(b, p.anchor.UnixNano())
+		if p.anchor.Before(minUnixNano) || p.anchor.After(maxUnixNano) {
+			// UnixNano is not defined for these anchors (it wraps around), so
+			// the seconds and the nanoseconds are written one after the other.
+			// The last byte tells these anchors from the ones above; the
+			// varint of UnixNano never reaches it.
+			n := binary.PutVarint(b, p.anchor.Unix())
+			binary.PutVarint(b[n:], int64(p.anchor.Nanosecond()))
+			b[15] = 1
+		} else {
+			binary.PutVarint(b, p.anchor.UnixNano())
+		}
 		buffer.Write(b)
 	}
 
